@@ -7,7 +7,7 @@
    values, the runtime-global rt.labels list); SpecSem = exec_s (ES5 12.x
    completion records, label sets).  Proofs: C01/Sim.v, C01/Proofs.v. *)
 From Coq Require Import List Bool ZArith.
-From Otto Require C01.Full C01.FullProofs.
+From Otto Require C01.Full C01.FullProofs C01.Corr.
 From Otto Require Import C01.Sem C01.Wf C01.Sim C01.Lang C01.Proofs.
 Import ListNotations.
 
@@ -105,3 +105,11 @@ Example C01_guard_met_forin :
   exec_o t_eval t_truthy t_poll (fun v => v) Z.eqb t_enum t_live t_bind 20 [] [] t_prog = ([1; 3]%Z, [], ONorm OEmpty) /\
   exec_s t_eval t_truthy t_poll (fun v => v) Z.eqb t_enum t_live t_bind 20 [] [] t_prog = ([1; 3]%Z, SDone CNormal).
 Proof. exact t_forin_runs. Qed.
+
+(* otto's deviation on eval-declared bindings: ES5 makes them deletable, otto does not (pinned probes 1, 2, 3, 6, 7
+   of the correspondence run; the control probes 4 and 5 agree) *)
+Theorem C01_eval_bindings_deletable_refuted :
+  exists id, C01.Corr.pin_model id <> C01.Corr.pin_spec id /\
+             C01.Corr.pin_model 4 = C01.Corr.pin_spec 4 /\ C01.Corr.pin_model 5 = C01.Corr.pin_spec 5.
+Proof. exists 1%Z. repeat split; vm_compute; congruence. Qed.
+Print Assumptions C01_eval_bindings_deletable_refuted.
